@@ -134,7 +134,16 @@ def fractional_grids(rng, case):
     if dmax <= dmin:
         dmax = dmin + 2
     q = lambda lo, hi: rng.randrange(int(lo * 4), int(hi * 4) + 1) / 4.0
-    gmin = [[q(dmin, dmax) for _ in range(cols)] for _ in range(rows)]
+    lo_all = dmin
+    if rng.random() < 0.5:
+        # the smallest bound of the whole grid is itself fractional (the origin of the disparity axis is its
+        # integer part), half of the time positive
+        if rng.random() < 0.5:
+            dmin, dmax = rng.randrange(0, 3), rng.randrange(0, 3) + rng.randrange(3, 6)
+            dmax = max(dmax, dmin + 2)
+        lo_all = dmin + rng.choice([0.25, 0.5, 0.75])
+    gmin = [[q(lo_all, dmax) for _ in range(cols)] for _ in range(rows)]
+    gmin[rng.randrange(rows)][rng.randrange(cols)] = lo_all
     gmax = [[q(gmin[r][c], dmax) for c in range(cols)] for r in range(rows)]
     return dict(case, disp=[dmin, dmax], grids=(gmin, gmax), fractional=True)
 
